@@ -349,6 +349,110 @@ def splice_item(rel, prefix, opts=None):
     return "// extracted verbatim from %s\n%s" % (rel, code), d
 
 
+BLOCK_KW = re.compile(r"(if|for|while|loop|match|unsafe)\b|\{")
+
+
+def _stmt_end(text, start, hi, else_chain=True):
+    """End (exclusive) of the statement that starts at `start`: the `;` at nesting depth 0, or -- for a statement that
+    starts with a block keyword -- the `}` that closes its block (plus its `else` chain)."""
+    blockish = BLOCK_KW.match(text, start) is not None
+    depth = 0
+    i = start
+    while i < hi:
+        kind, j = _scan(text, i)
+        if kind == "code":
+            c = text[i]
+            if c in "([{":
+                depth += 1
+            elif c in ")]}":
+                depth -= 1
+                if depth < 0:
+                    raise ExtractError("statement at offset %d runs past its enclosing block" % start)
+                if depth == 0 and c == "}" and blockish:
+                    end = i + 1
+                    while else_chain:
+                        m2 = re.match(r"\s*else\b[^{;]*\{", text[end:hi])
+                        if not m2:
+                            break
+                        end = match_brace(text, end + m2.end() - 1) + 1
+                    # a block used as an expression statement may still be followed by `;` or `?;`
+                    m3 = re.match(r"\s*\??\s*;", text[end:hi])
+                    if m3 and not re.match(r"\s*(if|for|while|loop|match)\b", text[start:hi]):
+                        end += m3.end()
+                    return end
+            elif c == ";" and depth == 0:
+                return i + 1
+        i = j
+    raise ExtractError("statement at offset %d is not terminated" % start)
+
+
+def splice_stmts(rel, impl_sel, fn_name, opts):
+    """Statement-level extraction: a contiguous run of statements of one real function.
+
+      //@ splice-stmts <repo file> "<impl selector>" <fn> "from=<anchor text>" ["to=<anchor text>"] [inner=1] [subst=..] [dropstmt=..]
+
+    The run starts at the first occurrence of the `from` anchor inside the function body (which must be at the start of
+    a statement) and ends with the statement that starts at the `to` anchor (default: the `from` statement itself).
+    inner=1: the single extracted statement is a block construct (`for .. { body }`, `if .. { body }`); only the text
+    between its outermost braces is kept and the header is echoed as a declared drop (loop body verified for an
+    arbitrary element / branch body verified under a stated precondition)."""
+    path = os.path.join(REPO, rel)
+    if not os.path.exists(path):
+        raise ExtractError("file %s not found" % rel)
+    text = open(path).read()
+    s, ob, cb = locate_fn(text, impl_sel, fn_name)
+    what = "%s::%s" % (impl_sel, fn_name)
+    if "from" not in opts:
+        raise ExtractError("splice-stmts %s: from= missing" % what)
+    m = find_code(text, re.escape(opts["from"]), ob + 1, cb)
+    if not m:
+        raise ExtractError("anchor `%s` not found in %s" % (opts["from"], what))
+    k = m.start() - 1
+    while k > ob and text[k] in " \t\n":
+        k -= 1
+    # skip back over a trailing line comment check: previous significant char must end a statement / open a block
+    if text[k] not in "{};" and not _prev_is_comment(text, k):
+        raise ExtractError("anchor `%s` is not at the start of a statement in %s" % (opts["from"], what))
+    start = m.start()
+    last = start
+    if opts.get("to"):
+        m2 = find_code(text, re.escape(opts["to"]), start, cb)
+        if not m2:
+            raise ExtractError("anchor `%s` not found after `%s` in %s" % (opts["to"], opts["from"], what))
+        last = m2.start()
+    end = _stmt_end(text, last, cb, else_chain=opts.get("else", "1") != "0")
+    raw = text[start:end]
+    d = ["%s: statement-level extraction -- only the statements from `%s`%s are extracted; the rest of the function body is NOT verified by this job; attributes and comments dropped"
+         % (what, opts["from"], (" to `%s`" % opts["to"]) if opts.get("to") else "")]
+    if opts.get("inner"):
+        o = find_code(raw, r"\{")
+        if not o:
+            raise ExtractError("inner=1: statement `%s` of %s has no block" % (opts["from"], what))
+        c = match_brace(raw, o.start())
+        if raw[c + 1:].strip() not in ("", ";"):
+            raise ExtractError("inner=1: statement `%s` of %s has text after its block" % (opts["from"], what))
+        hdr = " ".join(strip_comments_and_attrs(raw[:o.start()]).split())
+        d.append("%s: block header `%s` dropped, the block body is verified for an arbitrary element / under the stated precondition" % (what, hdr))
+        raw = raw[o.start() + 1:c]
+    code = strip_comments_and_attrs(raw)
+    for pre in [p for p in opts.get("dropstmt", "").split("@@") if p]:
+        code, cnt = drop_statements(code, pre, what)
+        d.append("%s: %d statement(s) starting with `%s` dropped (declared drop: event publication / tracing)" % (what, cnt, pre))
+    for pair in [p for p in opts.get("subst", "").split("@@") if p]:
+        a, b = pair.split("=>", 1)
+        if a not in code:
+            raise ExtractError("substitution source `%s` not found in statements of %s" % (a, what))
+        code = code.replace(a, b)
+        d.append("%s: substitution `%s` => `%s`" % (what, a, b))
+    return "// extracted verbatim from %s (%s, statements)\n%s" % (rel, what, code), d
+
+
+def _prev_is_comment(text, k):
+    """True if position k lies at the end of a `//` line comment (so the anchor that follows starts a statement)."""
+    ls = text.rfind("\n", 0, k + 1) + 1
+    return "//" in text[ls:k + 1]
+
+
 def expand_splices(body):
     lines = body.split("\n")
     out, dropped = [], []
@@ -375,6 +479,13 @@ def expand_splices(body):
         if s.startswith("//@ splice-item"):
             toks = shlex.split(s[len("//@ splice-item"):])
             code, d = splice_item(toks[0], toks[1], dict(t.split("=", 1) for t in toks[2:] if "=" in t))
+            out.append(code)
+            dropped += d
+            i += 1
+            continue
+        if s.startswith("//@ splice-stmts"):
+            toks = shlex.split(s[len("//@ splice-stmts"):])
+            code, d = splice_stmts(toks[0], toks[1], toks[2], dict(t.split("=", 1) for t in toks[3:] if "=" in t))
             out.append(code)
             dropped += d
             i += 1
@@ -409,4 +520,9 @@ def functions_of(job):
         if s.startswith("//@ splice-fn"):
             toks = shlex.split(s[len("//@ splice-fn"):])
             fns.append("%s %s::%s" % (toks[0], toks[1], toks[2]))
+        elif s.startswith("//@ splice-stmts"):
+            toks = shlex.split(s[len("//@ splice-stmts"):])
+            f = "%s %s::%s [statements]" % (toks[0], toks[1], toks[2])
+            if f not in fns:
+                fns.append(f)
     return fns
